@@ -35,6 +35,7 @@ def main():
     ap.add_argument("--checks")
     ap.add_argument("--tier", default="quick")
     ap.add_argument("--skip-verify", action="store_true")
+    ap.add_argument("--worktree", action="store_true", help="run the checks against a patched scratch worktree (VERIF_REPO) instead of patching /repo")
     a = ap.parse_args()
     d = os.path.abspath(a.dir)
     patch = os.path.join(d, "patch.diff")
@@ -58,6 +59,26 @@ def main():
             sh(f"git -C {REPO} worktree remove --force {wt}")
             shutil.rmtree(wt, ignore_errors=True)
     checks = (a.checks or a.pid).split(",")
+    if a.worktree:
+        wt = tempfile.mkdtemp(prefix="seedwt-")
+        os.rmdir(wt)
+        sh(f"git -C {REPO} worktree add -q --detach {wt} HEAD")
+        res["checks"] = {}
+        try:
+            rc, out = sh(f"git apply {patch}", cwd=wt)
+            if rc != 0:
+                raise SystemExit("patch does not apply: " + out)
+            for c in checks:
+                rc, out = sh(f"./check {c} --tier {a.tier}", cwd="/verif", env=dict(os.environ, VERIF_REPO=wt), timeout=3000)
+                lines = [ln for ln in out.splitlines() if ln.startswith(("VIOLATION", "KNOWN-FINDING", "MODEL-DRIFT", "OK ", "MACHINERY"))]
+                clauses = sorted({ln.split("clause=")[1].split()[0] for ln in lines if "clause=" in ln})
+                res["checks"][c] = {"exit": rc, "violation": rc == 1, "clauses": clauses, "drift": sum(1 for ln in lines if ln.startswith("MODEL-DRIFT")),
+                                    "lines": [ln[:200] for ln in lines[:4]]}
+        finally:
+            sh(f"git -C {REPO} worktree remove --force {wt}")
+            shutil.rmtree(wt, ignore_errors=True)
+        print(json.dumps(res, indent=1))
+        return
     rc, out = sh(f"git -C {REPO} status --porcelain")
     if out.strip():
         raise SystemExit("/repo is not clean: " + out)
